@@ -862,15 +862,16 @@ fn eval(a: &[String]) -> String {
       // LunarSect1: counts against (whole days, double hours) between birth and a Jie instant, births every 7 h 7 min around four Jie of 2000/2001
       use tyme4rs::tyme::eightchar::provider::{ChildLimitProvider, LunarSect1ChildLimitProvider};
       let mut out = "NONE".to_string();
-      'scan: for (y, k) in [(2000isize, 3isize), (2000, 11), (2000, 23), (2001, 5)] {
+      'scan: for (y, k) in [(2000isize, 3isize), (2000, 11), (2000, 23), (2001, 5), (2017, 3)] {
         let term = SolarTerm::from_index(y, k);
         let t = term.get_julian_day().get_solar_time();
-        if t.get_hour() == 23 { continue; }
         let mut b = t.next(-31 * 86400);
         while b.is_before(t.next(31 * 86400)) {
-          if b.get_hour() != 23 {
+          {
             let (start, end) = if b.is_after(t) { (t, b) } else { (b, t) };
-            let tot = 12 * end.get_solar_day().subtract(start.get_solar_day()) as i64 + ((end.get_hour() as i64 + 1) / 2 - (start.get_hour() as i64 + 1) / 2);
+            // the strategy's own convention: 23:xx counts as index 11 of the day that ends
+            let z = |h: usize| if h == 23 { 11i64 } else { (h as i64 + 1) / 2 };
+            let tot = 12 * end.get_solar_day().subtract(start.get_solar_day()) as i64 + (z(end.get_hour()) - z(start.get_hour()));
             let info = LunarSect1ChildLimitProvider::new().get_info(b, term.clone());
             if info.get_year_count() as i64 != tot / 36 || info.get_month_count() as i64 != (tot / 3) % 12 || info.get_day_count() as i64 != 10 * (tot % 3) || info.get_hour_count() != 0 || info.get_minute_count() != 0 {
               out = format!("birth {}-{}-{} {}:{} against the Jie of {}-{}-{} {}h: {} y {} m {} d, {} double hours apart", b.get_year(), b.get_month(), b.get_day(), b.get_hour(), b.get_minute(),
